@@ -332,6 +332,7 @@ func runC17(c *kit.Ctx) {
 
 	// ---- R4 threading ---------------------------------------------------------
 	c.StartRule("R4", "the loop threads the returned back-off and leaves on its error", 8)
+	lookupContexts(c)
 	for _, fn := range p.Funcs {
 		for _, call := range kit.Calls(fn, sleepName) {
 			c.Funcs[kit.FuncName(fn)] = true
@@ -642,7 +643,7 @@ func retryLoopsWait(c *kit.Ctx) {
 				if iff, ok := from.Instrs[len(from.Instrs)-1].(*ssa.If); ok && from.Succs[1] == to && from.Succs[0] != to {
 					if cmp, ok := kit.CanonCmp(iff.Cond, true); ok && cmp.Op == token.GTR && !cmp.Bytes {
 						if k, okk := kit.ConstInt(cmp.Y); okk && k <= 1 {
-							if inc := counterIncrement(cmp.X); inc != nil && waitBlocks[from.Succs[0]] {
+							if inc := counterIncrement(cmp.X); inc != nil && waitBlocks[from.Succs[0]] && counterNeverReset(cmp.X, inc) {
 								// every way from this edge back to the test passes the increment
 								e := kit.PathFromBlock(to, kit.PathQuery{
 									Known:  kit.EdgeFacts(from, to),
@@ -672,4 +673,57 @@ func retryLoopsWait(c *kit.Ctx) {
 			c.OK(fn, "waitless-cycle", fn.Pos(), fmt.Sprintf("no waitless cycle (%d wait blocks removed, %d counter-bounded edges, %d tabled NSRE edges)", len(waitBlocks), counterUsed, tabledUsed))
 		}
 	}
+}
+
+// counterNeverReset: the retry counter v (incremented by inc) is not set back inside the loop: every
+// other assignment to it happens where the increment cannot have run yet. A counter that is reset
+// whenever, say, the connection object changed never reaches its bound.
+func counterNeverReset(v ssa.Value, inc ssa.Instruction) bool {
+	v = kit.Strip(v)
+	if u, ok := v.(*ssa.UnOp); ok && u.Op == token.MUL {
+		if a, ok := u.X.(*ssa.Alloc); ok {
+			good := true
+			kit.Instrs(a.Parent(), func(in ssa.Instruction) {
+				st, ok := in.(*ssa.Store)
+				if !ok || st.Addr != ssa.Value(a) || st.Val == inc.(ssa.Value) {
+					return
+				}
+				if kit.Reaches(inc, st) {
+					good = false
+				}
+			})
+			return good
+		}
+		return false
+	}
+	ph, ok := v.(*ssa.Phi)
+	if !ok {
+		return false
+	}
+	good := true
+	seen := map[*ssa.Phi]bool{}
+	var visit func(p *ssa.Phi)
+	visit = func(p *ssa.Phi) {
+		if seen[p] {
+			return
+		}
+		seen[p] = true
+		for i, e := range p.Edges {
+			switch x := e.(type) {
+			case *ssa.Phi:
+				visit(x)
+			case *ssa.Const:
+				pred := p.Block().Preds[i]
+				if len(pred.Instrs) > 0 && kit.Reaches(inc, pred.Instrs[len(pred.Instrs)-1]) {
+					good = false // a constant assigned after the counter has been incremented
+				}
+			default:
+				if e != inc.(ssa.Value) {
+					good = false
+				}
+			}
+		}
+	}
+	visit(ph)
+	return good
 }
